@@ -33,6 +33,7 @@ type Step struct {
 	Method  string `json:"method,omitempty"`
 	Query   string `json:"query,omitempty"`
 	Park    int    `json:"park,omitempty"` // startreq: park after this many Writes
+	AtStack bool   `json:"park_at_stack,omitempty"` // startreq: park right before the handler captures its dump
 	Full    bool   `json:"full_opts,omitempty"`
 }
 
@@ -187,7 +188,11 @@ func GenPlan(r *core.Rng, seed, run uint64) *Plan {
 			p.Steps = append(p.Steps, Step{Op: "request", Method: m, Query: q})
 		case k < 19 && parked < 3:
 			m, q, _ := genQuery(r)
-			p.Steps = append(p.Steps, Step{Op: "startreq", Method: m, Query: q, Park: r.Range(1, 12)})
+			st := Step{Op: "startreq", Method: m, Query: q, Park: r.Range(1, 12)}
+			if r.Chance(0.4) {
+				st.Park, st.AtStack = 0, true
+			}
+			p.Steps = append(p.Steps, st)
 			parked++
 		default:
 			if parked > 0 {
@@ -545,6 +550,39 @@ func balanced(body string) string {
 }
 
 // checkResponse evaluates the handler clauses.
+// augmentOn reports what a valid query asks for (default: on).
+func augmentOn(query string) bool {
+	for _, kv := range strings.Split(query, "&") {
+		if k, v, _ := strings.Cut(kv, "="); k == "augment" {
+			return v != "0"
+		}
+	}
+	return true
+}
+
+// checkResponse evaluates the handler clauses. haveReg: at least one
+// registered goroutine (whose frames take an *entry argument, declared in this
+// package's sources on disk) was alive and had run when the dump was taken;
+// -1 = unknown (free-running stage).
+func (c *checker) checkResponseReg(method, query string, code int, ctype, body string, valid bool, wantCount int, truncated bool, haveReg int) {
+	c.checkResponse(method, query, code, ctype, body, valid, wantCount, truncated)
+	if !valid || truncated || code != 200 {
+		return
+	}
+	// the augment parameter: with it the arguments are rewritten from the
+	// sources (the harness's own frames show their *entry parameter by type),
+	// with augment=0 they are not
+	has := strings.Contains(body, "*entry(")
+	what := fmt.Sprintf("%s /debug?%s", method, query)
+	if augmentOn(query) {
+		if haveReg > 0 && !has {
+			c.fail("augment-param", "%s: augmentation is on but no argument of the harness's frames was rewritten from the sources on disk", what)
+		}
+	} else if has {
+		c.fail("augment-param", "%s: augment=0 but arguments were rewritten from the sources (*entry(...) appears in the page)", what)
+	}
+}
+
 func (c *checker) checkResponse(method, query string, code int, ctype, body string, valid bool, wantCount int, truncated bool) {
 	c.evals++
 	what := fmt.Sprintf("%s /debug?%s", method, query)
